@@ -1313,6 +1313,47 @@ func bcdPackingIdiom(base, idx ssa.Value) bool {
 	if c, ok := constInt(d.Y); !ok || c != 2 {
 		return false
 	}
+	// form (b): (i + len(s)%2)/2 with i the counter of a loop  for i := 0; i < len(s); i++
+	if add2, ok := d.X.(*ssa.BinOp); ok && add2.Op == token.ADD {
+		isPad := func(v ssa.Value) bool {
+			bo, ok := resolveLocal(v).(*ssa.BinOp)
+			if !ok || bo.Op != token.REM || strOfLen(bo.X) != s {
+				return false
+			}
+			c, ok := constInt(bo.Y)
+			return ok && c == 2
+		}
+		isCounter := func(v ssa.Value) bool {
+			cnt, ok := v.(*ssa.Phi)
+			if !ok || len(cnt.Edges) != 2 {
+				return false
+			}
+			zero, inc := false, false
+			for _, e := range cnt.Edges {
+				if k, ok := constInt(e); ok && k == 0 {
+					zero = true
+				}
+				if bo, ok := e.(*ssa.BinOp); ok && bo.Op == token.ADD && bo.X == cnt {
+					if k, ok := constInt(bo.Y); ok && k == 1 {
+						inc = true
+					}
+				}
+			}
+			if !zero || !inc {
+				return false
+			}
+			ifi, ok := cnt.Block().Instrs[len(cnt.Block().Instrs)-1].(*ssa.If)
+			if !ok {
+				return false
+			}
+			c, ok := ifi.Cond.(*ssa.BinOp)
+			return ok && c.Op == token.LSS && c.X == cnt && strOfLen(c.Y) == s && dominates(cnt.Block().Succs[0], d.Block())
+		}
+		if (isPad(add2.X) && isCounter(add2.Y)) || (isPad(add2.Y) && isCounter(add2.X)) {
+			return true
+		}
+		return false
+	}
 	ph, ok := d.X.(*ssa.Phi)
 	if !ok || len(ph.Edges) != 2 {
 		return false
